@@ -794,6 +794,14 @@ pub fn reject_probes(shapes: &[Shape], picks: &[usize]) -> Vec<(String, String, 
     for (class, bad, good) in fixed {
         out.push((class.to_string(), wrap(bad.to_string()), wrap(good.to_string())));
     }
+    // KNOWN FINDING (KNOWN_FINDINGS.txt, signature crate-alias-hijacks-derive-paths): the derive names the
+    // library by the absolute path `::gc_arena::..`, which `extern crate self as gc_arena;` re-points at
+    // the calling crate, so the Drop detector (or the Trace bound) can be replaced by a local look-alike
+    {
+        let bad = "#![forbid(unsafe_code)]\n#![allow(unused)]\nextern crate gc_arena as real;\nextern crate self as gc_arena;\npub use real::{Collect, collect};\npub trait __MustNotImplDrop {}\nuse real::Gc;\n#[derive(Collect)]\n#[collect(no_drop)]\npub struct T<'gc> { g: Gc<'gc, u32> }\nimpl<'gc> Drop for T<'gc> { fn drop(&mut self) {} }\nfn main() {}\n";
+        let good = "#![forbid(unsafe_code)]\n#![allow(unused)]\nextern crate gc_arena as real;\nuse real::{Collect, Gc};\n#[derive(Collect)]\n#[collect(unsafe_drop)]\npub struct T<'gc> { g: Gc<'gc, u32> }\nimpl<'gc> Drop for T<'gc> { fn drop(&mut self) {} }\nfn main() {}\n";
+        out.push(("crate-alias-hijacks-derive-paths|no_drop-with-Drop-impl".to_string(), bad.to_string(), good.to_string()));
+    }
     // the bound string is a where clause, nothing else: tokens after it must not reach the generated impl
     for (i, inj) in [
         "where Self: Sized { const NEEDS_TRACE: bool = false; } macro_rules! eat {($($t:tt)*)=>{}} eat!",
